@@ -196,7 +196,7 @@ def words_specs():
     return L
 
 
-def run_words(report, tier, seed):
+def run_words(report, tier, seed, tables):
     rnd = random.Random(seed * 1000003 + 17)
     base = 1200 if tier == "quick" else 5000
     traces, scheds = [], []
@@ -209,6 +209,26 @@ def run_words(report, tier, seed):
             if spec["kind"] == "enc":
                 key = "Encoder(nwords=%d,lsb_first=%d)" % (spec["n"], spec["lsb"])
                 cover[key] = max(cover.get(key, 0), len(fam.enc_coverage(ev, spec["n"])))
+    # audit extension: the decoder sweep - every ten-bit word after each representative predecessor (registers
+    # not in their reset state) and held through stalls of length 1 and 2 (cfg field sweep = 1)
+    sweepcov = {}
+    for lsb in (0, 1):
+        spec = {"kind": "dec", "n": 1, "lsb": lsb, "sweep": 1}
+        prevs = fam.decoder_sweep_prevs(tables, lsb, tier)
+        sched = fam.decoder_sweep_schedule(prevs)
+        ev, sched = fam.words_trace(spec, len(sched), None, schedule=sched)
+        pairs, held = fam.decoder_sweep_coverage(ev)
+        npairs = sum(1 for p in prevs for w in range(1024) if (p, w) in pairs)
+        h1 = sum(1 for w in range(1024) if held.get(w, 0) >= 1)
+        h2 = sum(1 for w in range(1024) if held.get(w, 0) >= 2)
+        sweepcov["Decoder(lsb_first=%d)" % lsb] = {"predecessors": len(prevs), "pairs": npairs,
+                                                   "words_held_through_a_stall": h1,
+                                                   "words_held_through_a_2_cycle_stall": h2}
+        if npairs < len(prevs) * 1024 or h1 < 1024 or h2 < 1024 or len(prevs) < 3:
+            raise MachineryError("decoder sweep (lsb_first=%d) is vacuous: %r" % (lsb, sweepcov))
+        traces.append({"cfg": spec, "ev": ev})
+        scheds.append(sched)
+    report.add(decoder_sweep_witnesses=sweepcov)
     for spec in words_specs():
         if spec["kind"] == "enc":
             key = "Encoder(nwords=%d,lsb_first=%d)" % (spec["n"], spec["lsb"])
@@ -228,7 +248,7 @@ def run_words(report, tier, seed):
         if not [x for x in f2 if x["clause"] == f["clause"]]:
             raise MachineryError("%s on %r does not reproduce with the reference evaluator" % (f["clause"], spec))
         what = ("Encoder(nwords=%d, lsb_first=%d)" % (spec["n"], spec["lsb"])) if spec["kind"] == "enc" else \
-               ("Decoder(lsb_first=%d)" % spec["lsb"])
+               ("Decoder(lsb_first=%d)%s" % (spec["lsb"], " [sweep]" if spec.get("sweep") else ""))
         report.violation({"part": "words", "dut": spec, "clause": f["clause"]},
                          {"kind": "words", "spec": spec, "schedule": sched, "observed": ev2[-4:], "clause": f["clause"]},
                          "%s violated by %s after %d cycles: visible outputs %r are not the chained table encoding"
@@ -262,16 +282,34 @@ def run_stream_t(report, tier, seed):
     ntr = 2 if tier == "quick" else 8
     ncyc = 400 if tier == "quick" else 2000
     traces, meta = [], []
+    wit = {}
     for spec, cfg in tmode_configs(tier):
-        for _ in range(ntr):
-            pv, pr = rnd.choice([(0.9, 0.9), (0.5, 0.5), (0.9, 0.3), (0.3, 0.9), (1.0, 1.0)])
+        total = {}
+        for j in range(ntr):
+            runs = None
+            if j == 0:
+                # audit extension: the first trace of every configuration is a bursty one - stalls and idle gaps
+                # of several cycles in a row (the 3- and 4-word wrappers are only explored here in the quick tier)
+                pv, pr = rnd.choice([(0.6, 0.4), (0.5, 0.5), (0.7, 0.35)])
+                runs = 3
+            else:
+                pv, pr = rnd.choice([(0.9, 0.9), (0.5, 0.5), (0.9, 0.3), (0.3, 0.9), (1.0, 1.0)])
             if cfg["idle"] == "any" and cfg["kind"] == "enc":
                 pv = min(pv, 0.5)
-            ev = fam.stream_trace(spec, cfg, ncyc, rnd, pv, pr)
+            ev = fam.stream_trace(spec, cfg, ncyc, rnd, pv, pr, runs=runs)
+            for k, v in fam.stream_witnesses(ev, cfg["kind"]).items():
+                total[k] = max(total.get(k, 0), v) if k == "longest_stall" else total.get(k, 0) + v
             tcfg = dict(cfg)
             tcfg["stallbound"] = 64
             traces.append({"cfg": tcfg, "ev": ev})
             meta.append(spec)
+        name = FAMILY.describe(spec)
+        wit[name] = total
+        need = ["backpressure_cycles", "idle_cycles", "offers_waiting"] + \
+               (["idle_cycles_with_payload"] if cfg["idle"] == "any" else [])
+        if any(total[k] == 0 for k in need) or total["longest_stall"] < 3:
+            raise MachineryError("vacuous stream simulation of %s: %r" % (name, total))
+    report.add(stream_trace_witnesses=wit)
     fails, st = tracecheck.validate(FAMILY.trace_module, traces, T_INVS, workers=4)
     report.add(traces_validated_against_impl=len(traces), trace_states=st["states"], states=st["states"],
                transitions=st["transitions"])
@@ -365,7 +403,7 @@ def run(prop, report, tier, seed):
                        "Enc[K.28.5,rd=+1]": t1["enc"][1][0xBC][1], "Dec[0x0fa]": t1["dec"][0x0fa]})
         ibm_note(report, tables)
         run_tables(report, tables)
-        run_words(report, tier, seed)
+        run_words(report, tier, seed, tables)
         run_stream_g(report, tier, tables)
         run_stream_t(report, tier, seed)
         report.cov["exhaustive"] = True
